@@ -353,7 +353,7 @@ pub fn h01_hist<const K: usize>(kind: Kind, lens: [usize; K]) {
     assert!(m.ok, "C01 the tables account for exactly the samples written");
     if m.ok {
         let i: usize = kani::any();
-        kani::assume(i < K);
+        if i < K {
         assert!(m.size[i] as usize == w.lens[i], "C01 k-th sample has the written length");
         assert!(m.dur[i] == w.dur[i], "C01 k-th sample has the written duration");
         assert!(m.cts[i] == w.cts[i], "C01 k-th sample has the written rendering offset");
@@ -365,7 +365,8 @@ pub fn h01_hist<const K: usize>(kind: Kind, lens: [usize; K]) {
         if w.lens[i] >= 2 && m.off[i] < 15 {
             assert!(out[m.off[i] as usize + 1] == w.bytes[i][1], "C01 k-th sample has exactly the written bytes");
         }
-        kani::cover!(K == 0 || i + 1 == K, "last sample checked");
+        kani::cover!(i + 1 == K, "(opt) last sample checked");
+        }
     }
     kani::cover!(true, "history completed");
     std::mem::forget(trak);
@@ -485,9 +486,9 @@ hist!(q_h01hist__aac_k1_len1, 4, 1, Kind::Aac, [1]);
 hist!(q_h01hist__ttxt_k0, 3, 0, Kind::Ttxt, []);
 // two samples: every payload-length vector in {0,1,2}^2 (quick: five of them)
 hist!(q_h01hist__ttxt_k2_len11, 5, 2, Kind::Ttxt, [1, 1]);
-hist!(q_h01hist__ttxt_k2_len12, 5, 2, Kind::Ttxt, [1, 2]);
+hist!(t_h01hist__ttxt_k2_len12, 5, 2, Kind::Ttxt, [1, 2]);
 hist!(q_h01hist__ttxt_k2_len01, 5, 2, Kind::Ttxt, [0, 1]);
-hist!(q_h01hist__ttxt_k2_len10, 5, 2, Kind::Ttxt, [1, 0]);
+hist!(t_h01hist__ttxt_k2_len10, 5, 2, Kind::Ttxt, [1, 0]);
 hist!(t_h01hist__ttxt_k2_len00, 5, 2, Kind::Ttxt, [0, 0]);
 hist!(t_h01hist__ttxt_k2_len02, 5, 2, Kind::Ttxt, [0, 2]);
 hist!(t_h01hist__ttxt_k2_len20, 5, 2, Kind::Ttxt, [2, 0]);
